@@ -1,7 +1,8 @@
 (* C19 -- sensors, battery, CPU frequency/count, cpu_stats, boot time mirror the kernel's tables.
    Statements only; proofs live in C19/Proofs*.v.  Model: C19/Model.v (transcription of
    psutil/_pslinux.py, psutil/__init__.py), specification: C19/Spec.v. *)
-From PV Require Import C19.Spec C19.Proofs C19.ProofsTemps C19.ProofsFans C19.ProofsBattery C19.ProofsCpu C19.ProofsStat.
+From PV Require Import C19.Spec C19.Proofs C19.ProofsTemps C19.ProofsFans C19.ProofsBattery C19.ProofsCpu C19.ProofsStat
+  C19.ProofsCpuinfo C19.ProofsTree.
 
 (* T1+T2: every hwmon layout (any chips/sensors, every subset of input/max/crit/label/name present, absent,
    unreadable, non-numeric, negative or zero values): the call returns a value (never fails); under each unit
@@ -49,6 +50,42 @@ Theorem C19_fans_legacy_name_refuted :
 Proof. exact fans_name_refuted. Qed.
 Print Assumptions C19_fans_legacy_name_refuted.
 
+(* which fan files are looked at: fan files directly below hwmonN, or (only when there is none) below hwmonN/device.
+   Layouts with one nesting only: every listed fan is reported *)
+Theorem C19_fans_tree_values : forall direct nested,
+  forallb kfanchip_ok direct = true -> forallb kfanchip_ok nested = true ->
+  fan_entries direct = [] \/ fan_entries nested = [] ->
+  exists d, sensors_fans_tree true (fan_entries direct) (fan_entries nested) = Val d /\
+    forall n, dict_get n d = match spec_fans_of n (direct ++ nested) with [] => None | l => Some l end.
+Proof. exact fans_tree_values. Qed.
+Print Assumptions C19_fans_tree_values.
+
+(* known finding: with both nestings present the fans below device/ are silently left out *)
+Theorem C19_fans_mixed_nesting_refuted :
+  exists direct nested d, forallb kfanchip_ok direct = true /\ forallb kfanchip_ok nested = true /\
+    sensors_fans_tree true (fan_entries direct) (fan_entries nested) = Val d /\
+    dict_get (bs "nct6775") d = None /\
+    spec_fans_of (bs "nct6775") (direct ++ nested) = [{| fr_label := bs "CPU Fan"; fr_cur := 1200 |}].
+Proof. exact fans_mixed_nesting_refuted. Qed.
+Print Assumptions C19_fans_mixed_nesting_refuted.
+
+(* the coretemp platform branch as coded: the names it appends never contribute a reading ... *)
+Theorem C19_coretemp_ignored : forall chips plat zones fahr, hwmon_entries chips <> [] ->
+  sensors_temperatures (hwmon_entries chips ++ coretemp_names plat) zones fahr
+  = sensors_temperatures (hwmon_entries chips) zones fahr.
+Proof. exact coretemp_ignored. Qed.
+Print Assumptions C19_coretemp_ignored.
+
+(* known finding: ... so a readable coretemp sensor visible only below /sys/devices/platform is not reported,
+   and its files switch the thermal-zone fallback off *)
+Theorem C19_coretemp_platform_refuted :
+  exists plat zones, forallb kchip_ok plat = true /\ forallb kzone_ok zones = true /\
+    sensors_temperatures (hwmon_entries [] ++ coretemp_names plat) (map zone_entry zones) false = Val [] /\
+    spec_temps_of false (bs "coretemp") plat <> [] /\
+    sensors_temperatures (hwmon_entries []) (map zone_entry zones) false <> Val [].
+Proof. exact coretemp_platform_refuted. Qed.
+Print Assumptions C19_coretemp_platform_refuted.
+
 (* T5: one battery, every subset of energy_/charge_ now/full, power_/current_ now, capacity, status, AC0/AC:
    percent = 100*now/full (0 when full = 0) else capacity, None when neither; seconds = now*3600/power,
    UNLIMITED when plugged, UNKNOWN when power is 0 or unknown; plugged from the adapter, else from status *)
@@ -93,11 +130,39 @@ Theorem C19_cpu_freq_percpu : forall cpuinfo fr cpus,
 Proof. exact cpu_freq_percpu. Qed.
 Print Assumptions C19_cpu_freq_percpu.
 
-Theorem C19_cpu_freq_cpuinfo_impl : forall cpuinfo fr ps,
-  cpuinfo_freqs cpuinfo = Val fr ->
-  cpu_freq_platform false cpuinfo ps = Val (map (fun x => {| fq_cur := x; fq_min := 0; fq_max := 0 |}) fr).
-Proof. exact cpu_freq_cpuinfo_impl. Qed.
+(* the "cpu MHz" scan over every printed /proc/cpuinfo (x86 and ARM shapes, any other lines): the values, in order *)
+Theorem C19_cpuinfo_mhz_scan : forall blocks, cpuinfo_ok blocks = true ->
+  cpuinfo_freqs (FC (k_cpuinfo blocks)) = Val (spec_mhz_list blocks).
+Proof. exact cpuinfo_freqs_spec. Qed.
+Print Assumptions C19_cpuinfo_mhz_scan.
+
+(* cpuinfo implementation of cpu_freq (no policy0 / cpu0/cpufreq at import): one entry per "cpu MHz", min = max = 0 *)
+Theorem C19_cpu_freq_cpuinfo_impl : forall blocks ps, cpuinfo_ok blocks = true ->
+  cpu_freq_platform false (FC (k_cpuinfo blocks)) ps =
+  Val (map (fun x => {| fq_cur := x; fq_min := 0; fq_max := 0 |}) (spec_mhz_list blocks)).
+Proof. exact cpu_freq_cpuinfo_impl_printed. Qed.
 Print Assumptions C19_cpu_freq_cpuinfo_impl.
+
+(* sysfs implementation over every printed cpuinfo whose "cpu MHz" count differs from the number of policies *)
+Theorem C19_cpu_freq_percpu_printed : forall blocks cpus, cpuinfo_ok blocks = true ->
+  length (spec_mhz_list blocks) <> length cpus -> forallb kcpu_ok cpus = true ->
+  cpu_freq_platform true (FC (k_cpuinfo blocks)) (map cpu_policy cpus) = Val (map spec_freq cpus).
+Proof. exact cpu_freq_percpu_printed. Qed.
+Print Assumptions C19_cpu_freq_percpu_printed.
+
+(* ... and when the counts are equal (all CPUs online): current from cpuinfo (MHz -> whole kHz -> MHz),
+   min/max from the policy files *)
+Theorem C19_cpu_freq_from_cpuinfo : forall blocks cpus r, cpuinfo_ok blocks = true -> forallb kcpu_ok cpus = true ->
+  zip_cpuinfo_cur (spec_mhz_list blocks) cpus = Some r ->
+  cpu_freq_platform true (FC (k_cpuinfo blocks)) (map cpu_policy cpus) = Val r.
+Proof. exact cpu_freq_from_cpuinfo. Qed.
+Print Assumptions C19_cpu_freq_from_cpuinfo.
+
+(* the kernel's "%u.%03u" MHz value is reported exactly on that path *)
+Theorem C19_via_khz_exact : forall ip fp, is_dec ip = true -> is_dec fp = true -> length fp = 3%nat ->
+  (via_khz (mhz_value ip fp) == mhz_value ip fp)%Q.
+Proof. exact via_khz_exact. Qed.
+Print Assumptions C19_via_khz_exact.
 
 (* cpu_freq() without percpu: the arithmetic mean of each field over the CPUs (None without CPUs) *)
 Theorem C19_cpu_freq_mean : forall ret, ret <> [] ->
@@ -111,6 +176,35 @@ Theorem C19_cpu_count_front : forall r,
   cpu_count_front r = match r with Some n => if 1 <=? n then Some n else None | None => None end.
 Proof. exact cpu_count_front_spec. Qed.
 Print Assumptions C19_cpu_count_front.
+
+(* cpu_count(logical=True): sysconf; else the number of "processor : N" lines of every printed cpuinfo;
+   else the number of cpuN lines of every printed /proc/stat; else None.  Files with an other-line whose key
+   reads "processor..." when lower-cased (the ARM "Processor : <model>" line) are excluded: known finding *)
+Theorem C19_cpu_count_logical : forall sysconf blocks stat,
+  cpuinfo_ok blocks = true -> no_processor_like blocks = true -> forallb statline_ok stat = true ->
+  cpu_count_logical sysconf (FC (k_cpuinfo blocks)) (FC (k_stat stat)) = Val (spec_logical sysconf blocks stat).
+Proof. exact cpu_count_logical_spec. Qed.
+Print Assumptions C19_cpu_count_logical.
+
+Theorem C19_cpu_count_arm_header_refuted :
+  exists blocks, cpuinfo_ok blocks = true /\ n_processors blocks = 2 /\
+    cpu_count_logical None (FC (k_cpuinfo blocks)) (FC []) = Val (Some 3).
+Proof. exact cpu_count_arm_header_refuted. Qed.
+Print Assumptions C19_cpu_count_arm_header_refuted.
+
+(* cpu_count(logical=False), topology files present: the number of distinct sibling sets *)
+Theorem C19_cpu_count_cores_lists : forall texts cpuinfo, texts <> [] -> forallb text_ok texts = true ->
+  cpu_count_cores (map (to_fres k_text) (map Present texts)) cpuinfo = Val (Some (Z.of_nat (length (distinct texts))))
+  /\ NoDup (distinct texts) /\ (forall x, In x (distinct texts) <-> In x texts).
+Proof. exact cpu_count_cores_lists. Qed.
+Print Assumptions C19_cpu_count_cores_lists.
+
+(* ... no topology file: over every printed cpuinfo, the sum over packages (physical id) of "cpu cores" *)
+Theorem C19_cpu_count_cores_cpuinfo : forall blocks, cpuinfo_ok blocks = true ->
+  cpu_count_cores [] (FC (k_cpuinfo blocks)) =
+  Val (if spec_cores blocks =? 0 then None else Some (spec_cores blocks)).
+Proof. exact cpu_count_cores_cpuinfo. Qed.
+Print Assumptions C19_cpu_count_cores_cpuinfo.
 
 (* T7: cpu_stats() over every printed /proc/stat holding one ctxt, one intr and one softirq line, in any order and
    among any number of cpu / btime / other lines: exactly those three counters (syscalls = 0) *)
